@@ -52,7 +52,7 @@ def monitors():
     return [Shape(), M.C03Validated()]
 
 
-def prelude(data, hist):
+def prelude(data, hist, evaluate=True):
     w = hist.world
     dests = sorted(n for n in w.heads() if is_dest(n))
     k = data.draw(st.integers(1, 4), label='k')
@@ -74,7 +74,7 @@ def prelude(data, hist):
         hist.apply({'op': 'report_pr', 'pr': pr, 'state': 'SUCCESSFUL'})
         hist.apply({'op': 'pr_event', 'pr': pr})
     qs = sorted(n for n in w.heads() if n.startswith('q/'))
-    if qs:
+    if qs and evaluate:
         pool = ('SUCCESSFUL', 'SUCCESSFUL', 'SUCCESSFUL') + STATES
         states = [pool[data.draw(st.integers(0, len(pool) - 1), label='qs')]
                   for _ in qs]
